@@ -100,6 +100,9 @@ class Check:
                 raise AnalysisBroken("rule %s matched %d instance(s), expected at least %d: the "
                                      "anchor moved or vanished" % (rid, r["n"], r["min"]))
         os.makedirs(os.path.join(EVIDENCE, "replay"), exist_ok=True)
+        for fnm in os.listdir(os.path.join(EVIDENCE, "replay")):
+            if fnm.startswith(self.pid + "-"):
+                os.unlink(os.path.join(EVIDENCE, "replay", fnm))
         # replay files
         lines = []
         seen_known = set()
